@@ -144,6 +144,8 @@ def main(argv):
         # the variable is given the way .env files / unit files give it: relative to the home directory
         os.environ["HOME"] = spec["user_home"]
         os.environ["TRAFFIC_WEAVER_DATA"] = spec["tilde_value"]
+        # variables the host application happens to define (a directory component may LOOK like a reference to one)
+        os.environ.update(spec.get("extra_env") or {})
     else:
         os.environ["TRAFFIC_WEAVER_DATA"] = home
         # a loader that ignored the variable must not reach the real home directory: stray writes land in scratch
